@@ -25,7 +25,7 @@ RULE = ('one run = 1..3 threads with 1..4 multi-record items each (path syscalls
         '>= 1 foreign record between its records; distinct = distinct history digest')
 SHAPE_MEASURE = 'distinct (item kind, number of chunks, kinds of records in between, lookups vs shown paths) tuples'
 ASSUMPTIONS = ['the kernel encoders (kdebug_vfs_lookup, kernel_debug_string_internal/_simple) are modelled from XNU sources',
-               'records placed between string chunks are ordinary-domain records; between lookup chunks never another lookup',
+               'between the chunks of an item any unrelated same-thread record may sit (ordinary or trace class), never a record of the same kind of item',
                'thread names are at most 64 bytes (MAXTHREADNAMESIZE), texts are valid UTF-8 without NUL']
 
 
@@ -38,9 +38,10 @@ def _between(rng, tid=None):
     if r < 0.6:
         return worlds.op_single(rng, rng.pick(cat['mach'][:20] + cat['turnstile']))
     if r < 0.8 and tid is not None:
-        # a trace-class record that names a thread (its own, or any other): unrelated to the item it sits in
-        return {'k': 'one', 'name': rng.pick(['TRACE_DATA_THREAD_TERMINATE', 'TRACE_DATA_THREAD_TERMINATE', 'TRACE_DATA_NEWTHREAD']), 'q': 0,
-                'a': [rng.pick([tid, tid, 12345]), 77, 0, 0]}
+        # a trace-class record that names a thread (its own, or any other), with binary arguments: unrelated to the item it
+        # sits in, be that a lookup, a global string or a thread name
+        return {'k': 'one', 'name': rng.pick(['TRACE_DATA_THREAD_TERMINATE', 'TRACE_DATA_THREAD_TERMINATE', 'TRACE_DATA_NEWTHREAD', 'TRACE_DATA_THREAD_TERMINATE_PID']), 'q': 0,
+                'a': [rng.pick([tid, tid, 12345, 0x9f3a1ff, 0x4142434445]), 77, 0, 0]}
     eid, _ = rng.pick(cat['undecoded'])
     return {'k': 'raw', 'id': eid, 'q': 0, 'a': rng.words()}
 
@@ -49,8 +50,7 @@ def _decorate(rng, op, nchunks_est, tid=None):
     if rng.chance(0.45):
         btw = {}
         for _ in range(rng.randint(1, 2)):
-            # (trace-class records only between lookup chunks: between the chunks of a string they would be same-domain records)
-            btw.setdefault(str(rng.randrange(0, max(1, nchunks_est))), []).append(_between(rng, tid if op['k'] == 'lookup' else None))
+            btw.setdefault(str(rng.randrange(0, max(1, nchunks_est))), []).append(_between(rng, tid))
         op['between'] = btw
     return op
 
